@@ -192,23 +192,34 @@ InRange(F, v) ==
       [] F.lab \in {"EP", "IX"} -> TRUE
       [] OTHER -> v # Inf
 
+\* A minterm (collection) belongs to a domain; the function is built in the
+\* forest the result edge is attached to (minterms.h: "e should be attached to
+\* the forest we want to create the function in").  f is the forest whose shape
+\* and range the caller used for the minterms.
 CollOutcome(s, f, mode, deflt, mts) ==
     IF ~(s \in DOMAIN edges) \/ ~LiveForest(f) THEN Fail("ANY")
-    ELSE IF edges[s].f # f THEN Fail("FOREST_MISMATCH")
-    ELSE Ok(CollFn(mode, deflt, mts, Sizes(fors[f]), fors[f].rel))
+    ELSE IF ~LiveEdge(s) THEN Fail("FOREST_MISMATCH")
+    ELSE LET ft == edges[s].f IN
+         IF fors[ft].d # fors[f].d \/ fors[ft].rel # fors[f].rel THEN Fail("DOMAIN_MISMATCH")
+         ELSE IF fors[ft].rng # fors[f].rng \/ fors[ft].lab # fors[f].lab THEN Unmodelled
+         ELSE Ok(CollFn(mode, deflt, mts, Sizes(fors[ft]), fors[ft].rel))
 
-BuildColl(s, f, mode, deflt, mts) == Produce(s, f, CollOutcome(s, f, mode, deflt, mts))
+BuildColl(s, f, mode, deflt, mts) ==
+    Produce(s, IF LiveEdge(s) THEN edges[s].f ELSE f, CollOutcome(s, f, mode, deflt, mts))
 
+\* an integer that does not fit a terminal (recorded as OffGrid) is refused
 ConstOutcome(s, f, v) ==
     IF ~(s \in DOMAIN edges) \/ ~LiveForest(f) THEN Fail("ANY")
-    ELSE IF edges[s].f # f THEN Fail("FOREST_MISMATCH")
+    ELSE IF edges[s].f # f THEN Fail("ANY")        \* the code is not documented
+    ELSE IF v = OffGrid /\ fors[f].lab = "MT" /\ fors[f].rng = "I" THEN Fail("VALUE_OVERFLOW")
+    ELSE IF v = OffGrid THEN Unmodelled
     ELSE Ok(ConstFn(v, Sizes(fors[f]), fors[f].rel))
 
 CreateConstant(s, f, v) == Produce(s, f, ConstOutcome(s, f, v))
 
 VarOutcome(s, f, vh, primed, terms) ==
     IF ~(s \in DOMAIN edges) \/ ~LiveForest(f) THEN Fail("ANY")
-    ELSE IF edges[s].f # f THEN Fail("FOREST_MISMATCH")
+    ELSE IF edges[s].f # f THEN Fail("ANY")        \* the code is not documented
     ELSE Ok(VarFn(vh, primed, terms, UnitOf(fors[f]), Sizes(fors[f]), fors[f].rel))
 
 CreateEdgeForVar(s, f, vh, primed, terms) == Produce(s, f, VarOutcome(s, f, vh, primed, terms))
@@ -284,6 +295,8 @@ BinaryOutcome(op, r, a, b) ==
             IF ArithSupported(op, FA, FB, FR)
             THEN FromErrs(ArithFn(op, Cls(FR), A, B))
             ELSE IF FA.rel # FB.rel \/ FA.rel # FR.rel THEN Fail("TYPE_MISMATCH")
+            ELSE IF FA.lab # FR.lab \/ FB.lab # FR.lab \/ FA.rng # FR.rng \/ FB.rng # FR.rng
+                 THEN FailAny({"TYPE_MISMATCH", "NOT_IMPLEMENTED"})     \* labeling / range mismatch
             ELSE Unmodelled
       [] op \in CmpOps ->
             IF CmpSupported(FA, FB, FR)
